@@ -8,28 +8,68 @@ PROP = {'streams': [('c03', 250, 20000)],
          'model; every strict-accepted policy is evaluated on 10 requests accepted by Request::new(.., schema) against a store accepted by '
          'Entities::from_entities(.., schema): error class, satisfaction vs type False / ImpossiblePolicy, typed AST vs condition, and inhabitation '
          "of every evaluated subexpression's annotated type; non-trivial = distinct (policy, environment, result)",
- 'theorems': ['typeOf_sound_partial',
+ 'theorems': ['typeOf_sound_strict',
+              'typeOf_sound_partial2',
+              'typeOf_sound_partialM',
+              'accepted_boolean_or_permitted_errorM',
+              'typeOf_types_wellformed2',
+              'accepted_boolean_or_permitted_error2',
+              'typed_false_never_satisfied2',
+              'impossible_policy_never_satisfied2',
+              'strict_validation_sound',
+              'strict_validation_sound_static',
+              'impossible_policy_never_satisfied_static',
+              'strict_implies_permissive_strict',
+              'strict_implies_permissive_strict_sub',
+              'strict_accepted_policy_permissive_accepted',
+              'strict_implies_permissive_partial',
+              'strict_accepted_implies_permissive_accepted',
+              'typeOf_sound_partial',
               'typeOf_types_wellformed',
               'accepted_boolean_or_permitted_error',
               'typed_false_never_satisfied',
-              'impossible_policy_never_satisfied'],
- 'assumptions': ['soundness is PROVED only for the fragment `Cedar.InFragment` named in Thm/C03.lean (literals, variables, && || ! if, unary -, + - '
-                 '*, ==, like, is, has and . on records and entities with capabilities); <, in, isEmpty, contains*, tags, set/record literals, '
-                 'extension calls, slots are covered by the differential run and the implementation-level soundness search only',
-                 'strict_implies_permissive is not proved; it is checked on the implementation for every generated policy',
-                 "the resolved ValidatorSchema is taken from Rust (schema construction is C09's subject); SchemaWF (single entity types, no action "
-                 'attributes, no entity type named like an action type) is assumed of it',
+              'impossible_policy_never_satisfied',
+              'ex2_schemaWF',
+              'ex2_store'],
+ 'assumptions': ['soundness is PROVED for STRICT mode on the fragment `Cedar.C03.InFragment2` named in Thm/C03.lean: every construct of the model '
+                 '(literals, variables, linked slots, && || ! if with arbitrary branches, unary -, + - *, ==, < <= incl. datetime/duration, like, '
+                 'is, has and . on records and entities with capabilities, hasTag/getTag, set and record literals, '
+                 'contains/containsAll/containsAny/isEmpty, in incl. the descendants-based False and the action-literal special cases, extension '
+                 'calls; unknown vacuously); for PERMISSIVE mode on `InFragmentM .permissive`: the same constructs except that an if has a '
+                 'syntactically flat branch and a set literal is non-empty with syntactically flat elements; permissive typing of if / set '
+                 'literals joining record, set or entity types, slots in environments without a slot type (unreachable: link_request_env types '
+                 'every slot of the policy) and record literals with duplicate keys (not representable in Rust) are covered by the differential '
+                 'run and the implementation-level soundness search only',
+                 'strict_implies_permissive is PROVED (same type and capabilities in both modes; policy level: same verdicts) for every '
+                 'expression of the strict fragment under SchemaWF3 (record types declared by the schema are closed with distinct keys; the '
+                 'action table is a map); without SchemaWF3 only for expressions whose least upper bounds have a flat side (`SIPFragment`); it '
+                 'is also checked on the implementation for every generated policy',
+                 "the resolved ValidatorSchema is taken from Rust (schema construction is C09's subject); SchemaWF2 is assumed of it: single "
+                 'entity types in attribute/tag/context types, no action attributes, no entity type named like an action type, the entity-type '
+                 'table is a map, action uids have an action type, ancestors/descendants of the action hierarchy are inverse (SchemaWF3 adds: declared '
+                 'record types closed with distinct keys, action table a map)',
+                 'the store is assumed to hold the action entities of the schema (ActionsPresent; Entities::from_entities(.., schema) adds them): '
+                 'without it `action in Action::"group"` typed True evaluates to false',
                  'entity literals of undeclared types / actions and unknowns answer (outside-model)']}
 
 TEXT = ('Lean model `typeOf` mirroring SingleEnvTypechecker::typecheck case by case (strict and permissive mode, capability sets, singleton-bool short '
  'circuits, has/getAttr/tags, in incl. action hierarchy, is, == with strict restrictions, least upper bounds, literals, extension calls, '
  'per-request-environment driver with template linking and the impossible-policy rule). Soundness (`typeOf_sound`: value inhabits the static type or '
- 'the error is entity/overflow/extension; capabilities hold when true, and unconditionally when typed True) is PROVED ONLY FOR THE FRAGMENT named in '
- 'Thm/C03.lean (`InFragment`: literals, variables, && || ! if, unary -, + - *, ==, like, is, has/. on records and entities with capabilities), with '
- 'corollaries accepted => boolean or permitted error, typed False / impossible => never satisfied. The rest of the typechecker is covered by the '
- 'differential run (model vs Typechecker::typecheck_by_request_env per policy, environment and mode) and by the implementation-level soundness '
- "search: every strict-accepted generated policy is evaluated on conformant requests/stores (Rust's own schema-based validation) and every evaluated "
- 'subexpression of the typed AST must inhabit its annotated type; plus non-vacuity (documented has/hasTag guard idioms accepted) and strict-accepted '
- '=> permissive-accepted on all generated policies.',
- 'proof over a hand-written model for a stated fragment only; the remaining constructs are sampled (generators in harness/src/gen_typed.rs, '
- "gen_schema.rs); the resolved schema is serialised from Rust's ValidatorSchema; strict=>permissive is tested, not proved")
+ 'the error is entity/overflow/extension; capabilities hold when true, and unconditionally when typed True) is PROVED FOR STRICT MODE ON THE FRAGMENT '
+ '`InFragment2` named in Thm/C03.lean (`typeOf_sound_partial2`): every construct the model types — literals, variables, linked '
+ 'template slots, && || ! if (arbitrary branches: instances of either branch inhabit the least upper bound), unary -, + - *, ==, < <= (long, '
+ 'datetime, duration), like, is, has/. on records and entities with capabilities, hasTag/getTag, set literals, contains/containsAll/containsAny/'
+ 'isEmpty, record literals (distinct keys), in (general rule with the descendants-based False, action-literal special cases True/False), extension '
+ 'calls — under schema well-formedness SchemaWF2, conformance of request and store, presence of the action entities, bound slots; and for BOTH modes '
+ 'on `InFragmentM` (`typeOf_sound_partialM`: in permissive mode an if needs a syntactically flat branch, a set literal flat elements). Corollaries for both fragments: accepted => boolean or permitted error, typed False / '
+ 'impossible => never satisfied, and the policy-level forms over checkPolicy (the environment of a conformant request is among those '
+ 'typechecked); strict => permissive with identical type, capabilities and per-environment verdicts for every expression of the strict fragment (schemas '
+ 'with closed, distinct-key record types); a concrete '
+ 'schema/request/store/policy instantiates every hypothesis (non-vacuity). Permissive typing of the '
+ 'constructs outside `InFragmentM .permissive` is covered by the differential run (model vs Typechecker::typecheck_by_request_env per policy, environment and '
+ "mode) and by the implementation-level soundness search: every strict-accepted generated policy is evaluated on conformant requests/stores (Rust's "
+ 'own schema-based validation) and every evaluated subexpression of the typed AST must inhabit its annotated type; plus non-vacuity (documented '
+ 'has/hasTag guard idioms accepted) and strict-accepted => permissive-accepted on all generated policies.',
+ 'proof over a hand-written model: strict mode for all constructs, permissive mode for a stated smaller fragment only; the model is '
+ "tied to Rust by sampling (generators in harness/src/gen_typed.rs, gen_schema.rs); the resolved schema is serialised from Rust's ValidatorSchema "
+ 'and its well-formedness (SchemaWF2) is assumed; strict=>permissive is proved for the strict fragment under a schema well-formedness assumption and tested on the implementation')
